@@ -684,3 +684,137 @@ def class_case(draw):
     """a single character class expression judged on a probe universe (XSD mode, whole-string match)"""
     ver = draw(st.sampled_from(['1.0', '1.1']))
     return {'ast': _gen_cls(draw), 'ver': ver, 'icase': draw(st.integers(0, 9)) < 2}
+
+
+# --------------------------------------------------------------------------
+# invalid patterns: recipes that are invalid under XSD 1.0, XSD 1.1 and F&O alike
+# --------------------------------------------------------------------------
+_BAD_ESC_CHARS = list('eEaAzZbBqQuUxXyYmMgGhHjJkKlLoOvVfF_0') + [' ', '~', '&', '#', '%', '@', '!', '/', '"', '=', '<', '>',
+                                                                 ',', ';', ':', "'", '\xe9']
+_ATOMS = ['a', 'b', '\\d', '[a-c]', '(a)', '.', '\\p{L}', 'x']
+
+
+@st.composite
+def invalid_case(draw):
+    xpath = draw(st.booleans())
+    ver = draw(st.sampled_from(['1.0', '1.1']))
+
+    def valid_text(max_atoms=3):
+        state = _State(xpath, '', draw(st.integers(0, max_atoms)))
+        if state.budget == 0:
+            return ''
+        return render(_gen_regexp(draw, state, 0), xpath)
+
+    P = valid_text()
+    S = valid_text()
+    if '|' in P:
+        P = '(' + P + ')'
+    if '|' in S:
+        S = '(' + S + ')'
+    A = draw(st.sampled_from(_ATOMS))
+    recipes = ['unbalanced-open', 'unbalanced-close', 'unterminated-class', 'stray-close-bracket', 'empty-class',
+               'bad-escape', 'bad-escape-in-class', 'trailing-backslash', 'double-quantifier', 'leading-quantifier',
+               'inline-flag-group', 'backref-in-class', 'reversed-range', 'unknown-category', 'malformed-category',
+               'class-unescaped-open-bracket', 'range-to-class-escape', 'junk-after-subtraction',
+               'unterminated-subtraction', 'quantity-malformed']
+    if xpath:
+        recipes += ['backref-missing-group', 'backref-open-group', 'triple-question-mark', 'backref-zero']
+    else:
+        recipes += ['noncapturing-group-xsd', 'lazy-quantifier-xsd', 'backref-xsd']
+    if xpath or ver == '1.1':
+        recipes += ['quantity-no-min', 'unescaped-brace']
+    rc = draw(st.sampled_from(recipes))
+    ngroups = 0
+    try:
+        ngroups = R.parse(P, xpath=xpath, xsd_version=ver).ngroups
+    except R.RefRegexError:
+        pass
+    q1 = draw(st.sampled_from(['*', '+', '?', '{2}', '{1,2}', '{0,}']))
+    if rc == 'unbalanced-open':
+        text = P + '(' + S
+    elif rc == 'unbalanced-close':
+        text = P + ')' + S
+    elif rc == 'unterminated-class':
+        text = P + draw(st.sampled_from(['[a', '[', '[^', '[a-', '[a-z', '[\\d', '[a-[b]']))
+    elif rc == 'stray-close-bracket':
+        text = P + ']' + S
+    elif rc == 'empty-class':
+        text = P + draw(st.sampled_from(['[]', '[^]'])) + S
+    elif rc == 'bad-escape':
+        c = draw(st.sampled_from(_BAD_ESC_CHARS + ([] if xpath else list('123456789$'))))
+        text = P + '\\' + c + S
+    elif rc == 'bad-escape-in-class':
+        c = draw(st.sampled_from(_BAD_ESC_CHARS + list('123456789')))
+        text = P + '[' + draw(st.sampled_from(['', 'a', '^'])) + '\\' + c + draw(st.sampled_from(['', 'b'])) + ']' + S
+    elif rc == 'trailing-backslash':
+        text = P + S + '\\'
+    elif rc == 'double-quantifier':
+        if xpath:
+            q2 = draw(st.sampled_from(['*', '+', '{3}', '?*', '?+', '??', '?{2}']))
+        else:
+            q2 = draw(st.sampled_from(['*', '+', '{3}', '?']))
+        text = P + A + q1 + q2 + S
+    elif rc == 'leading-quantifier':
+        form = draw(st.integers(0, 3))
+        if form == 0:
+            text = q1 + A + S
+        elif form == 1:
+            text = P + '(' + q1 + A + ')' + S
+        elif form == 2:
+            text = P + A + '|' + q1 + A
+        else:
+            text = P + '(' + A + '|' + q1 + ')' + S
+    elif rc == 'inline-flag-group':
+        text = P + draw(st.sampled_from(['(?i)', '(?=a)', '(?!a)', '(?<n>a)', '(?P<n>a)', '(?#c)', '(?i:a)', '(?<=a)',
+                                         '(?s)a', '(?x) a', '(?>a)', '(?)', '(?'])) + S
+    elif rc == 'backref-in-class':
+        text = P + '(a)' + draw(st.sampled_from(['[\\1]', '[a\\1]', '[^\\1]', '[\\1-z]'])) + S
+    elif rc == 'reversed-range':
+        text = P + draw(st.sampled_from(['[z-a]', '[9-0]', '[b-a]', '[^z-a]', '[ab-a]', '[\\]-\\[]', '[a-c-[z-y]]'])) + S
+    elif rc == 'unknown-category':
+        text = P + draw(st.sampled_from(['\\p{Xx}', '\\p{Ab}', '\\p{l}', '\\p{LU}', '\\P{Q}', '\\p{Letter}',
+                                         '[\\p{Xx}]', '[a\\P{Ab}]', '\\p{Lu }', '\\p{L-u}'])) + S
+    elif rc == 'malformed-category':
+        text = P + draw(st.sampled_from(['\\pL', '\\p{L', '\\p{}', '\\p', '\\P', '\\p(L)', '[\\pL]', '[\\p{L]',
+                                         '\\p}L{'])) + draw(st.sampled_from(['', 'a', 'b+']))
+    elif rc == 'class-unescaped-open-bracket':
+        text = P + draw(st.sampled_from(['[a[b]', '[[]', '[[a]', '[a[]', '[^[]', '[a-z[]'])) + S
+    elif rc == 'range-to-class-escape':
+        text = P + draw(st.sampled_from(['[a-\\d]', '[a-\\p{L}]', '[+-\\s]', '[^a-\\w]', '[a-\\D]'])) + S
+    elif rc == 'junk-after-subtraction':
+        text = P + draw(st.sampled_from(['[a-[b]c]', '[a-z-[b]-[c]]', '[a-[b]\\d]', '[^a-[b] ]'])) + S
+    elif rc == 'unterminated-subtraction':
+        text = P + draw(st.sampled_from(['[a-[b]', '[a-z-[aeiou]', '[^a-[b]', '[\\w-[\\d]']))
+    elif rc == 'quantity-malformed':
+        text = P + A + draw(st.sampled_from(['{1', '{1,2', '{x}', '{1;2}', '{-1}', '{1,2,3}', '{1,x}', '{', '{}', '{1 }',
+                                             '{ 1}', '{1, 2}', '{+1}', '{1.0}', '{\u0661}'])) + draw(st.sampled_from(['', 'a']))
+    elif rc == 'backref-missing-group':
+        text = P + '\\' + str(min(ngroups + draw(st.integers(1, 2)), 9)) + S if ngroups < 8 else P + ')'
+    elif rc == 'backref-open-group':
+        text = (P + '(' + A + '\\' + str(ngroups + 1) + ')' + S) if ngroups < 9 else P + ')'
+    elif rc == 'triple-question-mark':
+        text = P + A + draw(st.sampled_from(['???', '*??', '+??', '{2}??'])) + S
+    elif rc == 'backref-zero':
+        text = P + '(a)\\0' + S
+    elif rc == 'noncapturing-group-xsd':
+        text = P + '(?:' + A + ')' + S
+    elif rc == 'lazy-quantifier-xsd':
+        text = P + A + draw(st.sampled_from(['*?', '+?', '??', '{2}?', '{1,2}?'])) + S
+    elif rc == 'backref-xsd':
+        text = P + '(a)\\1' + S
+    elif rc == 'quantity-no-min':
+        text = P + A + draw(st.sampled_from(['{,2}', '{,}', '{,0}'])) + S
+    elif rc == 'unescaped-brace':
+        text = P + draw(st.sampled_from(['}', 'a}', '{a}', 'a{b'])) + S
+    else:
+        raise AssertionError(rc)
+    return {'recipe': rc, 'text': text, 'xpath': xpath, 'ver': ver}
+
+
+@st.composite
+def badflag_case(draw):
+    good = draw(st.sampled_from(['', 's', 'i', 'mx']))
+    bad = draw(st.sampled_from(['k', 'X', 'S', 'I', 'g', ' ', '-', '1', 'Q', 'u', '\xe9', ',']))
+    k = draw(st.integers(0, len(good)))
+    return {'recipe': 'bad-flag', 'flags': good[:k] + bad + good[k:], 'text': draw(st.sampled_from(['a', 'a+', '[a-c]', '\\d'])),
+            'subject': draw(st.sampled_from(['', 'a', 'xa']))}
